@@ -21,8 +21,10 @@ def _callables(shape, entered, mode):
     return S.make_callables(shape, entered, partials=True)
 
 
-def klass_features(shape, form, cfg):
+def klass_features(shape, form, cfg, calls=()):
     kind, flat, typed, sentinel = cfg
+    if kind in ('picklemap:pickle', 'picklemap:dill') and any(isinstance(c, dict) and c.get('first_two_slots_are_one_object') for c in calls):
+        return 'picklemap with a pickle/dill serializer: the key records whether two equal arguments are one object'
     return '%s %s%s%s' % (kind, 'flat' if flat else 'non-flat', ' typed' if typed else '', ' sentinel' if sentinel else '')
 
 
@@ -39,7 +41,7 @@ def run_c09(unit):
     seen_classes = set()
     for ci, (form, c, desc) in enumerate(_callables(shape, entered, mode)):
         tables = [K.Table() for _ in cfgs]
-        for (args, kwi) in _with_spelled_defaults(c, S.call_forms(shape, maxpos, maxkw, orders=True)):
+        for (args, kwi) in _with_shared_objects(_with_spelled_defaults(c, S.call_forms(shape, maxpos, maxkw, orders=True))):
             ok, got = S.really_binds(c, entered, args, kwi)
             if not ok:
                 continue
@@ -66,7 +68,7 @@ def run_c09(unit):
                     other = K.record_canonical(tables[j], b, key, call)
                 except deal.PostContractError as e:
                     other = tables[j].by_binding[b][1]
-                    _viol(out, seen_classes, 'canonical', klass_features(shape, form, cfgs[j]),
+                    _viol(out, seen_classes, 'canonical', klass_features(shape, form, cfgs[j], [call, other]),
                           '%s, keymap %r: %s and %s bind the same values but get different keys'
                           % (desc, cfgs[j], K.call_repr(args, kwi), _call_text(other)),
                           {'prop': 'C09', 'mode': mode, 'shape': idx, 'callable': ci, 'cfg': list(cfgs[j]), 'calls': [call, other], 'desc': desc})
@@ -96,6 +98,29 @@ def _with_spelled_defaults(c, forms):
             yield a2, k2
 
 
+def _with_shared_objects(forms):
+    """every call form, and -- for forms with at least two argument slots -- the same form with its first two slots holding
+    (i) one and the same object and (ii) two equal but distinct objects: the calls bind the same values, so they share a key"""
+    seen = set()
+    for (args, kwi) in forms:
+        yield args, kwi
+        shape_id = (len(args), tuple(k for k, _ in kwi))
+        if len(args) + len(kwi) < 2 or shape_id in seen:
+            continue
+        seen.add(shape_id)
+        one = (7.5, 'shared')
+        for second in (one, tuple([7.5, 'shared'])):
+            vals = [one, second]
+            a2, k2 = list(args), list(kwi)
+            for i in range(len(a2)):
+                if vals:
+                    a2[i] = vals.pop(0)
+            for i in range(len(k2)):
+                if vals:
+                    k2[i] = (k2[i][0], vals.pop(0))
+            yield tuple(a2), k2
+
+
 def _call_text(call):
     args = tuple(_dec(x) for x in call['args'])
     kwi = [(k, _dec(v)) for k, v in call['kw']]
@@ -118,8 +143,7 @@ def replay_c09(w):
     _, I, _ = K._mods()
     keys = []
     for call in w['calls']:
-        args = tuple(_dec(x) for x in call['args'])
-        kwi = [(k, _dec(v)) for k, v in call['kw']]
+        args, kwi = _dec_call(call)
         ok, got = S.really_binds(c, entered, args, kwi)
         try:
             a2, k2 = I._keygen(c, (), *args, **dict(kwi))
@@ -196,7 +220,24 @@ def run_c10(unit):
 
 
 def _enc_call(args, kwi):
-    return {'args': [_enc(v) for v in args], 'kw': [(k, _enc(v)) for k, v in kwi]}
+    d = {'args': [_enc(v) for v in args], 'kw': [(k, _enc(v)) for k, v in kwi]}
+    slots = list(args) + [v for _, v in kwi]
+    if len(slots) >= 2 and slots[0] is slots[1] and isinstance(slots[0], tuple):
+        d['first_two_slots_are_one_object'] = True
+    return d
+
+
+def _dec_call(call):
+    args = [_dec(x) for x in call['args']]
+    kwi = [(k, _dec(v)) for k, v in call['kw']]
+    if call.get('first_two_slots_are_one_object'):
+        if len(args) >= 2:
+            args[1] = args[0]
+        elif len(args) == 1:
+            kwi[0] = (kwi[0][0], args[0])
+        else:
+            kwi[1] = (kwi[1][0], kwi[0][1])
+    return tuple(args), kwi
 
 
 def _enc_other(call):
